@@ -31,6 +31,16 @@ RECURSIVE Pop(_)
 Pop(n) == IF n = 0 THEN 0 ELSE (n % 2) + Pop(n \div 2)
 
 CmpOps == {"ult", "ule", "ugt", "uge", "ilt", "ile", "igt", "ige", "eq", "neq"}
+IndexOps == {"index1", "index2", "index3"}
+ElemSize(op) == CASE op = "index1" -> 1 [] op = "index2" -> 2 [] op = "index3" -> 3
+\* NewIndex: bits := 1; for length := 2; length < n; length *= 2 { bits++ }
+RECURSIVE IndexBitsFrom(_, _, _)
+IndexBitsFrom(n, length, bits) == IF length < n THEN IndexBitsFrom(n, 2 * length, bits + 1) ELSE bits
+IndexBits(n) == IndexBitsFrom(n, 2, 1)
+
+IndexRef(wx, wz, x, y) == LET n == wx \div wz
+                              idx == y % P2(IndexBits(n))
+                          IN IF idx < n THEN (x \div P2(wz * idx)) % P2(wz) ELSE 0
 
 Ref(op, wx, wy, wz, x, y) ==
     LET sx == SInt(x, wx)  sy == SInt(y, wy)  m == IF wx > wy THEN wx ELSE wy IN
@@ -48,6 +58,14 @@ Ref(op, wx, wy, wz, x, y) ==
       [] op = "hamming" -> ModW(Pop(Bits("bxor", x, y, m)), wz)
       \* mux: x is the 1-bit condition, y packs t (low wz bits) and f (next wz bits)
       [] op = "mux" -> IF x % 2 = 1 THEN y % P2(wz) ELSE (y \div P2(wz)) % P2(wz)
+      \* index: x packs n = wx / wz elements of wz bits, y is the index.  As documented in circ_index.go: the n low
+      \* bits of the index with 2^n >= count select (higher bits are ignored); a selected position beyond the array is 0
+      [] op \in IndexOps -> IndexRef(wx, wz, x, y)
+      [] op = "land" -> x * y
+      [] op = "lor" -> IF x + y > 0 THEN 1 ELSE 0
+      \* bit tests with a constant bit number y (y beyond the operand: not set)
+      [] op = "bts" -> IF y < wx THEN (x \div P2(y)) % 2 ELSE 0
+      [] op = "btc" -> IF y < wx THEN 1 - ((x \div P2(y)) % 2) ELSE 1
 
 Wz(kind, wx, wy) == LET m == IF wx > wy THEN wx ELSE wy IN
                     CASE kind = "min" -> (IF wx < wy THEN wx ELSE wy) [] kind = "max" -> m [] kind = "max+1" -> m + 1 [] kind = "2max" -> 2 * m [] kind = "2max+3" -> 2 * m + 3
@@ -57,12 +75,18 @@ vars == <<cur, emitted>>
 Combos == {c \in [op : OpSet, wx : WMin..WMax, wy : WMin..WMax, k : WzKinds] :
              /\ (EqualOnly => c.wx = c.wy)
              /\ (c.op \in CmpOps => c.k = "max")
-             /\ (c.op = "mux" => c.wx = 1 /\ c.wy % 2 = 0 /\ c.k = "max")}
+             /\ (c.op = "mux" => c.wx = 1 /\ c.wy % 2 = 0 /\ c.k = "max")
+             /\ (c.op \in IndexOps => c.wx % ElemSize(c.op) = 0 /\ c.k = "max")
+             /\ (c.op \in {"land", "lor"} => c.wx = 1 /\ c.wy = 1 /\ c.k = "max")
+             /\ (c.op \in {"bts", "btc"} => c.k = "max")}
 Init == cur \in Combos /\ emitted = FALSE
 Next == emitted = FALSE /\ emitted' = TRUE /\ UNCHANGED cur
 Spec == Init /\ [][Next]_vars
 
-CurWz == IF cur.op \in CmpOps THEN 1 ELSE IF cur.op = "mux" THEN cur.wy \div 2 ELSE Wz(cur.k, cur.wx, cur.wy)
+CurWz == IF cur.op \in CmpOps \cup {"land", "lor", "bts", "btc"} THEN 1
+         ELSE IF cur.op = "mux" THEN cur.wy \div 2
+         ELSE IF cur.op \in IndexOps THEN ElemSize(cur.op)
+         ELSE Wz(cur.k, cur.wx, cur.wy)
 Table == [i \in 1..(P2(cur.wx) * P2(cur.wy)) |->
             Ref(cur.op, cur.wx, cur.wy, CurWz, (i - 1) \div P2(cur.wy), (i - 1) % P2(cur.wy))]
 Emit == emitted => PrintT(<<"VHCASE", ToJson([op |-> cur.op, wx |-> cur.wx, wy |-> cur.wy, wz |-> CurWz, table |-> Table])>>)
